@@ -147,6 +147,11 @@ struct ObjSpec {
     transfers: u32,
 }
 
+thread_local! {
+    /// Content-Length the next objects announce instead of their real length (family content-length)
+    static ANNOUNCE_CL: std::cell::Cell<Option<u64>> = std::cell::Cell::new(None);
+}
+
 #[derive(Clone)]
 struct ObjInfo {
     toi: u128,
@@ -180,7 +185,10 @@ fn make_session2(oti: &Oti, objs: &[ObjSpec], interleave: u8, multiplex: u32, fd
     for (i, o) in objs.iter().enumerate() {
         let url = url::Url::parse(&format!("file:///o{}", i)).unwrap();
         let tc = TransferConfig { max_transfer_count: o.transfers, cenc: o.cenc, inband_cenc: o.inband_cenc, oti: if fdt_level { o.oti.clone() } else { Some(o.oti.clone().unwrap_or(oti.clone())) }, ..Default::default() };
-        let desc = ObjectDesc::create_from_buffer(o.content.clone(), "application/octet-stream", &url, o.md5, tc).ok()?;
+        let mut desc = ObjectDesc::create_from_buffer(o.content.clone(), "application/octet-stream", &url, o.md5, tc).ok()?;
+        if let Some(cl) = ANNOUNCE_CL.with(|c| c.get()) {
+            desc.content_length = cl;
+        }
         let toi = s.add_object(0, desc).ok()?;
         let transfer = if o.cenc == Cenc::Null { o.content.clone() } else { sender::compress::compress_buffer(&o.content, o.cenc).ok()? };
         infos.push(ObjInfo { toi, content: o.content.clone(), transfer, cenc: o.cenc, oti: o.oti.clone().unwrap_or(oti.clone()) });
@@ -1037,6 +1045,30 @@ pub fn run(ctx: &mut Ctx, eng: &mut dyn Engine) {
                     r.ctx.count(&format!("codec-contract:scheme{}:decoded", scheme));
                     let _ = decoded;
                     r.ctx.end_case(r.eng);
+                }
+            }
+        }
+    }
+
+    // ---- 12. FDT Content-Length that disagrees with the real content (hostile or buggy sender), every cenc, MD5 on and off
+    for (ci, &cenc) in cencs.iter().enumerate() {
+        for size in [60usize, 900] {
+            for md5 in [false, true] {
+                for cl in [size as u64, size as u64 - 1, size as u64 + 1, 10, 100000, 0] {
+                    let oti = scheme_oti(0, 16, 4, 0, ci % 2 == 0);
+                    let spec = ObjSpec { content: content(&mut rng, size), cenc, inband_cenc: false, md5, oti: None, transfers: 1 };
+                    ANNOUNCE_CL.with(|c| c.set(Some(cl)));
+                    let sess = make_session(&oti, &[spec], 1, 1);
+                    ANNOUNCE_CL.with(|c| c.set(None));
+                    let sess = match sess {
+                        Some(s) => s,
+                        None => continue,
+                    };
+                    let mut h = all_pushed(&sess.pkts);
+                    h.push(None);
+                    let cc = CaseCfg { expect_mode: if cl == size as u64 { Some('g') } else { None }, ..Default::default() };
+                    r.ctx.count(&format!("content-length:{}", if cl == size as u64 { "equal" } else if cl < size as u64 { "smaller" } else { "larger" }));
+                    r.case("content-length", &cc, &sess, &[], &h, false);
                 }
             }
         }
